@@ -55,6 +55,9 @@ type Contract struct {
 	Trusted     bool
 	Pure        bool
 	Terminates  bool
+	Decreases   SExpr // function-level variant: checked at every call of a function of the same recursion group
+	RecGroup    string
+	DecSrc      string
 	Extern      bool
 	Mode        map[string]string
 	Ghosts      []GhostDecl
@@ -90,10 +93,11 @@ type SpecFun struct {
 }
 
 type Axiom struct {
-	Name string
-	Expr SExpr
-	Src  string
-	File string
+	Name  string
+	Expr  SExpr
+	Src   string
+	File  string
+	Owner string // explicit owner (specification function whose use triggers emission); "" = first one mentioned
 }
 
 type ContractSet struct {
@@ -274,11 +278,20 @@ func (cs *ContractSet) LoadContractFile(path string, pkgName string) error {
 			if m == nil {
 				return fail(i, "axiom needs a name")
 			}
-			e, err := ParseSpec(m[2])
+			body := m[2]
+			owner := ""
+			if strings.HasPrefix(body, "owner ") {
+				// "owner F; body": the axiom is emitted exactly when the specification function F is used
+				if k := strings.Index(body, ";"); k > 0 {
+					owner = strings.TrimSpace(body[len("owner "):k])
+					body = strings.TrimSpace(body[k+1:])
+				}
+			}
+			e, err := ParseSpec(body)
 			if err != nil {
 				return fail(i, "%v", err)
 			}
-			cs.Axioms = append(cs.Axioms, &Axiom{Name: m[1], Expr: e, Src: m[2], File: path})
+			cs.Axioms = append(cs.Axioms, &Axiom{Name: m[1], Expr: e, Src: body, File: path, Owner: owner})
 			cur = nil
 		case "smt":
 			cs.RawSMT = append(cs.RawSMT, rest)
@@ -311,6 +324,8 @@ func (cs *ContractSet) LoadContractFile(path string, pkgName string) error {
 				cur.Pure = true
 			case "terminates":
 				cur.Terminates = true
+			case "rec-group":
+				cur.RecGroup = strings.TrimSpace(rest)
 			case "note":
 				cur.Notes = append(cur.Notes, rest)
 			case "modifies":
@@ -388,7 +403,14 @@ func (cs *ContractSet) LoadContractFile(path string, pkgName string) error {
 				cur.ReturnsSrc = rest
 			case "decreases":
 				if curLoop == nil {
-					return fail(i, "decreases outside loop")
+					// function-level variant: checked at every self-recursive call (termination of the recursion)
+					e, err := ParseSpec(rest)
+					if err != nil {
+						return fail(i, "%v", err)
+					}
+					cur.Decreases = e
+					cur.DecSrc = rest
+					continue
 				}
 				e, err := ParseSpec(rest)
 				if err != nil {
